@@ -216,6 +216,38 @@ def find_item(toks, path, lo=0, hi=None):
     for comp in path:
         comp_n = re.sub(r"\s+", "", comp)
         found = []
+        if it is not None and it.kw == "fn":
+            # a function nested in a function body: the body holds statements, so look for `fn NAME` at depth 0 only
+            want = comp.split()[-1]
+            k = cur_lo
+            while k < cur_hi:
+                t = toks[k]
+                if t.kind == "punct" and t.text in OPEN:
+                    k = match_close(toks, k) + 1; continue
+                if t.text == "fn" and k + 1 < cur_hi and toks[k+1].text == want and comp.split()[0] == "fn":
+                    a = k
+                    while a - 1 >= cur_lo and toks[a-1].text in ("async", "pub", "const", "unsafe"): a -= 1
+                    while a - 1 >= cur_lo and toks[a-1].text == "]":
+                        # attribute `#[…]` in front
+                        o = a - 1; d = 0
+                        while o >= cur_lo:
+                            if toks[o].text == "]": d += 1
+                            elif toks[o].text == "[":
+                                d -= 1
+                                if d == 0: break
+                            o -= 1
+                        if o - 1 >= cur_lo and toks[o-1].text == "#": a = o - 1
+                        else: break
+                    j = k + 2
+                    while toks[j].text != "{":
+                        j = match_close(toks, j) + 1 if (toks[j].kind == "punct" and toks[j].text in OPEN) else j + 1
+                    found.append(Item(toks, a, match_close(toks, j), "fn", want, None, k, j))
+                k += 1
+            if len(found) != 1:
+                raise ScanError(f"nested item {comp!r} of path {path!r}: found {len(found)} candidates")
+            it = found[0]
+            cur_lo, cur_hi = it.body_open + 1, it.b
+            continue
         for cand in items_in(toks, cur_lo, cur_hi):
             if cand.kw == "impl":
                 key = re.sub(r"\s+", "", cand.header)
